@@ -29,6 +29,11 @@ def gen_links(rng, nlinks=None, tiny=False):
         q = rng.choice([-0.1, 0.1, 0.4, 0.7])
         length = rng.choice([0, 1, 37, 300, 1024, 3000, 5000, 9000, 20000] if not tiny else [0, 1, 37, 300, 1500])
         sig = rng.randrange(6)
+        if rng.random() < 0.2:
+            # a link whose packets exceed 255 bytes from the first one on (three channels of noise at high quality): its pages can be
+            # cut inside a packet, the first audio page included (gen_splits)
+            ch, rate, q, sig = 3, rng.choice([44100, 48000]), 0.7, 5
+            length = max(length, 300)
         seed = rng.randrange(1, 90000)
         while seed in used:       # the serial number is seed+1000: Ogg requires it to be unique within the physical stream
             seed = rng.randrange(1, 90000)
@@ -36,6 +41,22 @@ def gen_links(rng, nlinks=None, tiny=False):
         pagemode = rng.choice([0, 0, 1, 2])
         fill = rng.choice([0, 200, 1000, 4000])
         out.append("link %d %d %s %d %d %d %d %d" % (ch, rate, q, length, sig, seed, pagemode, fill))
+    return out
+
+
+def gen_splits(rng, links, p=0.45):
+    """legal re-pagination: cut pages inside their first packet (harness op pagedamage 15/16), so that pages without a granule position
+    and 'continued' pages occur — also as the first audio page of a link.  A page whose first packet is shorter than 255 bytes stays."""
+    fat = [k for k, l in enumerate(links) if l.split(" ")[1] == "3" and l.split(" ")[3] == "0.7" and l.split(" ")[5] == "5"]
+    out = []
+    if fat and rng.random() < 0.8:
+        out.append("pagedamage 15 %d 0 %d" % (rng.choice(fat), rng.randrange(0, 8)))     # the first audio page of a link
+    if rng.random() < p:
+        for _ in range(rng.choice([1, 1, 2, 3])):
+            if rng.random() < 0.3:
+                out.append("pagedamage 15 %d 0 %d" % (rng.randrange(len(links)), rng.randrange(0, 8)))
+            else:
+                out.append("pagedamage 16 %d 0 %d" % (rng.randrange(0, 40), rng.randrange(0, 8)))
     return out
 
 
